@@ -13,6 +13,17 @@ def mp_pool(ex, args, kw):
     return r
 
 
+@lib("pathos.multiprocessing", "ProcessingPool")
+def pathos_pool(ex, args, kw):
+    """pathos' ProcessingPool: same map / imap contract; pathos keeps every pool it makes in a process-wide cache, so the pool
+    is referenced for as long as the process lives (no lifetime obligation on its iterators)."""
+    ex.ctx.note("pool-created", tuple(args), tuple(kw))
+    r = Record("Pool")
+    r.created_here = True
+    r.held = True
+    return r
+
+
 def sym_map(ex, f, items, ordered=True):
     """ordered map over a symbolic-length task list: element i is f(items[i]) (the callee's contract, evaluated lazily);
     the contract's precondition is an obligation for an arbitrary task index."""
@@ -48,9 +59,29 @@ def _imap(ex, self, args, kw):
     return it
 
 
+def _imap_unordered(ex, self, args, kw):
+    """imap_unordered yields the results in COMPLETION order: some permutation of the submission order, chosen by the
+    schedule.  For a concrete task list of up to four tasks every permutation is a path; beyond that the call is outside
+    the model."""
+    res = _map(ex, self, args, kw)
+    if not isinstance(res, list):
+        raise Unsupported("imap_unordered over a task list of symbolic length")
+    n = len(res)
+    if n > 4:
+        raise Unsupported("imap_unordered over more than four tasks")
+    import itertools
+    perms = list(itertools.permutations(range(n)))
+    k = ex.ctx.choose(len(perms)) if len(perms) > 1 else 0
+    it = SeqIter([res[i] for i in perms[k]], 0)
+    it.pool = self
+    ex.ctx.note("completion-order", perms[k])
+    return it
+
+
 from .exec import METHODS
 METHODS[("Record:Pool", "map")] = _map
 METHODS[("Record:Pool", "imap")] = _imap
+METHODS[("Record:Pool", "imap_unordered")] = _imap_unordered
 
 
 @method("Record:Pool", "__enter__")
